@@ -7,7 +7,7 @@ use crate::model::*;
 use crate::report::*;
 use crate::rng::Rng;
 use crate::scan::*;
-use pc_keyboard::{Error, HandleControl, Keyboard, Ps2Decoder, ScancodeSet, ScancodeSet1, ScancodeSet2};
+use pc_keyboard::{Error, HandleControl, Keyboard, Ps2Decoder, ScancodeSet1, ScancodeSet2};
 use std::collections::{BTreeMap, BTreeSet, VecDeque};
 
 type BitRes = Result<Option<u8>, Error>;
@@ -209,8 +209,9 @@ pub fn run_c05(rep: &mut Report) {
     rep.count("frames_through_add_bit_fresh_and_after_each_frame_class", serial);
 
     // ---- Keyboard::add_word = frame rule ∘ scancode decoder, in every scancode prefix state
-    kb_add_word::<ScancodeSet2>(rep);
-    kb_add_word::<ScancodeSet1>(rep);
+    // Keyboard::add_word feeds the scancode stage with every byte in every prefix state: run it in a child process, so
+    // that a tree whose scancode decoder aborts on garbage does not take this (frame-rule) check down with it
+    run_part_in_child(rep, "c05-keyboard-add-word");
 
     rep.distinct_nontrivial = distinct.len() as u64;
     rep.exhaustive = Some(true);
@@ -231,6 +232,59 @@ fn replay_words(ws: &[u16], target: &str, want: &str, got: &str) -> J {
         .with("words", J::Arr(ws.iter().map(|w| J::u(*w as u64)).collect()))
         .with("expected_last", J::s(want))
         .with("observed_last", J::s(got))
+}
+
+/// body of the child process `monitor --part c05-keyboard-add-word`
+pub fn part_kb_add_word(rep: &mut Report) {
+    kb_add_word::<ScancodeSet2>(rep);
+    kb_add_word::<ScancodeSet1>(rep);
+}
+
+/// Run one part of a monitor in a child process and merge what it reports.  If the child is killed (the crate
+/// aborted), the part is recorded as abandoned – a crash is reported by C08, not by whichever check happened to run.
+pub fn run_part_in_child(rep: &mut Report, part: &str) {
+    let exe = match std::env::current_exe() {
+        Ok(e) => e,
+        Err(_) => return,
+    };
+    let out = std::process::Command::new(exe).args(["--part", part, "--tier", &rep.tier, "--seed", &rep.seed.to_string()]).output();
+    let Ok(out) = out else {
+        rep.notes.push(format!("part {} could not be started", part));
+        return;
+    };
+    if !out.status.success() {
+        rep.notes.push(format!("part {} abandoned: the child process was killed while driving the crate (exit {:?}) – a C08 matter", part, out.status.code()));
+        rep.count("parts_abandoned_because_the_crate_aborted", 1);
+        return;
+    }
+    let txt = String::from_utf8_lossy(&out.stdout).to_string();
+    let Ok(doc) = crate::json::parse(&txt) else {
+        rep.inconclusive(format!("part {} produced unreadable output", part));
+        return;
+    };
+    if let Some(vs) = doc.get("violations").and_then(|v| v.as_arr()) {
+        for v in vs {
+            rep.violate(
+                v.get("sig").and_then(|x| x.as_str()).unwrap_or("?").to_string(),
+                v.get("what").and_then(|x| x.as_str()).unwrap_or("").to_string(),
+                v.get("replay").cloned().unwrap_or(J::Null),
+            );
+        }
+    }
+    if let Some(cov) = doc.get("coverage") {
+        rep.evaluations += cov.get("evaluations").and_then(|x| x.as_i64()).unwrap_or(0) as u64;
+        rep.panics += cov.get("panics_caught").and_then(|x| x.as_i64()).unwrap_or(0) as u64;
+        if let Some(J::Obj(items)) = cov.get("counters") {
+            for (k, v) in items {
+                rep.count(k, v.as_i64().unwrap_or(0) as u64);
+            }
+        }
+    }
+    for w in doc.get("inconclusive").and_then(|v| v.as_arr()).cloned().unwrap_or_default() {
+        if let Some(w) = w.as_str() {
+            rep.inconclusive(w.to_string());
+        }
+    }
 }
 
 fn kb_add_word<D: Dec>(rep: &mut Report) {
@@ -689,13 +743,11 @@ pub fn run_c06(rep: &mut Report) {
         let mut rng = Rng::fork(seed, 0xC06_0000 + t as u64);
         let mut done = 0u64;
         while done < per {
-            // one history of ~20k bits on one decoder (Ps2Decoder alone) and one Keyboard
+            // one history of ~20k bits on one Ps2Decoder
             let hist_len = 20_000u64.min(per - done);
             let mut recent: VecDeque<String> = VecDeque::new();
             let r = guarded(|| {
                 let mut d = Ps2Decoder::new();
-                let mut kb: Keyboard<DynLayout, ScancodeSet2> = Keyboard::new(ScancodeSet2::new(), dyn_layout(0, 0), HandleControl::Ignore);
-                let mut twin = ScancodeSet2::new();
                 let mut shadow: Vec<bool> = Vec::with_capacity(11);
                 let mut viol = Vec::new();
                 let mut n = 0u64;
@@ -730,7 +782,6 @@ pub fn run_c06(rep: &mut Report) {
                     }
                     if rng.below(200) == 0 {
                         d.clear();
-                        kb.clear();
                         shadow.clear();
                         clears += 1;
                         if recent.len() > 40 {
@@ -742,7 +793,6 @@ pub fn run_c06(rep: &mut Report) {
                     let bit = pending.pop_front().unwrap();
                     shadow.push(bit);
                     let r = d.add_bit(bit);
-                    let rk = kb.add_bit(bit);
                     n += 1;
                     if recent.len() > 40 {
                         recent.pop_front();
@@ -758,7 +808,7 @@ pub fn run_c06(rep: &mut Report) {
                         shadow.clear();
                         frames += 1;
                         match frame_expect(w) {
-                            Ok(b) => (Ok(Some(b)), twin.advance_state(b)),
+                            Ok(b) => (Ok(Some(b)), Ok(None)),
                             Err(e) => (Err(e), Err(e)),
                         }
                     } else {
@@ -772,8 +822,7 @@ pub fn run_c06(rep: &mut Report) {
                         ));
                         break;
                     }
-                    // the Keyboard-level result is only driven here (composition is C18's subject)
-                    let _ = (&rk, &wantk);
+                    let _ = &wantk; // (the Keyboard-level path is C18's subject and is not driven here)
                     if shadow.is_empty() && frames % 97 == 0 {
                         let s = format!("{:?}", d);
                         if s != fd {
@@ -825,7 +874,7 @@ pub fn run_c06(rep: &mut Report) {
     rep.distinct_nontrivial = transitions;
     rep.exhaustive = Some(true);
     rep.rule = "partial-state graph of the real Ps2Decoder extracted by BFS on its Debug rendering (every partial state × both bit values); all 2048² ordered frame pairs shifted in bit by bit on one decoder; \
-                clear() from every partial state followed by seeded (quick) / all 2048 (thorough) frames; seeded noisy bit streams with random clear() in lock-step with a shadow shift register, also through Keyboard::add_bit; \
+                clear() from every partial state followed by seeded (quick) / all 2048 (thorough) frames; seeded noisy bit streams with random clear() in lock-step with a shadow shift register; \
                 each 11th-bit result compared with the real add_word and the independent frame rule; distinct_nontrivial = distinct (partial state, bit) transitions driven"
         .into();
     rep.sample_str(format!("fresh decoder renders as {}", fresh_dbg));
